@@ -2,12 +2,16 @@
 # Applies a seeded change to /repo, runs the given checks (quick tier), and undoes the change straight away.
 # usage: try_mutant.sh <patch.diff> <ID> [<ID> ...]   ; prints one line per check: <ID> exit=<rc> [first VIOLATION line]
 set -u
+# EVAL_REPO / EVAL_VERIF (default /repo and /verif) allow running in a private copy (a worktree of /repo and a
+# copy of /verif whose harness/Cargo.toml points at that worktree) while /repo itself is in use.
 PATCH="$(readlink -f "$1")"; shift
-if [ -n "$(git -C /repo status --porcelain --untracked-files=no)" ]; then echo "refusing: /repo has uncommitted changes"; exit 2; fi
-git -C /repo apply "$PATCH" || { echo "patch does not apply to /repo"; exit 2; }
-trap 'git -C /repo checkout -q -- .' EXIT
+R="${EVAL_REPO:-/repo}"; V="${EVAL_VERIF:-/verif}"
+export VERIF_REPO="$R"
+if [ -n "$(git -C "$R" status --porcelain --untracked-files=no)" ]; then echo "refusing: $R has uncommitted changes"; exit 2; fi
+git -C "$R" apply "$PATCH" || { echo "patch does not apply to $R"; exit 2; }
+trap 'git -C "$R" checkout -q -- .' EXIT
 for id in "$@"; do
-  out=$(cd /verif && VERIF_SEED=${VERIF_SEED:-0} ./check "$id" ${TIER:-quick} 2>/tmp/try_mutant.err); rc=$?
+  out=$(cd "$V" && VERIF_SEED=${VERIF_SEED:-0} ./check "$id" ${TIER:-quick} 2>/tmp/try_mutant.err); rc=$?
   v=$(echo "$out" | grep -m1 "^VIOLATION")
   echo "$id exit=$rc $v"
   if [ $rc -eq 1 ]; then grep -m1 -- "->" /tmp/try_mutant.err | cut -c1-300; fi
